@@ -44,14 +44,14 @@ import (
 )
 
 const (
-	c16Huge   = uint64(1) << 50     // "practically unlimited" free memory (exact in a float64, like every other value used)
-	c16MinBig = uint64(1)<<30 + 7   // a MinimumMemory larger than any graph+layer of the tiny models
-	c16MinSml = uint64(5)           // a tiny MinimumMemory
-	c16OvSml  = uint64(3)           // a tiny OLLAMA_GPU_OVERHEAD
-	c16OvMid  = uint64(70001)       // larger than a small-context layer
-	c16OvBig  = uint64(1)<<31 + 1   // larger than everything else in the model
-	c16Unit   = uint64(1000)        // weight bytes of an ordinary block
-	c16AllK   = 99                  // "no limit on subset cardinality"
+	c16Huge    = uint64(1) << 50   // "practically unlimited" free memory (exact in a float64, like every other value used)
+	c16MinBig  = uint64(1)<<30 + 7 // a MinimumMemory larger than any graph+layer of the tiny models
+	c16MinSml  = uint64(5)         // a tiny MinimumMemory
+	c16OvSml   = uint64(3)         // a tiny OLLAMA_GPU_OVERHEAD
+	c16OvMid   = uint64(70001)     // larger than a small-context layer
+	c16OvBig   = uint64(1)<<31 + 1 // larger than everything else in the model
+	c16Unit    = uint64(1000)      // weight bytes of an ordinary block
+	c16AllK    = 99                // "no limit on subset cardinality"
 	c16ProjEnv = "VERIF_C16_PROJECTOR"
 )
 
@@ -875,9 +875,9 @@ func c16Projectors(g *c16Group) []string {
 
 type c16Stats struct {
 	evals, nontrivial, fit, partial, full, tight, dropped, capped int64
-	byN                                                          [9]int64
-	byLevel                                                      [16]int64
-	dupSlices                                                    int64
+	byN                                                           [9]int64
+	byLevel                                                       [16]int64
+	dupSlices                                                     int64
 }
 
 func c16CPUms() int64 {
@@ -1250,6 +1250,13 @@ func ZZVerifC16() {
 		"model files are tiny GGUFs written by the real WriteGGUF and read by the real Decode; graph sizes come from the real GraphSize for arch llama (and gemma3 in the thorough tier)",
 	)
 	r.Extra("bounds", plan)
+	r.Extra("bounds_legend", "levels[i] = one GPU count with its depth. opts: all = ctx{4,2048} x batch{1,512} x parallel{1,4}; lite = (4,512,1) and (2048,1,4); one = (4,512,1). "+
+		"min_blocks/max_blocks, profiles, outputs (null = all): which model shapes take part. vision: all | none | some (vision tower only with uniform profile and small/none output). "+
+		"proj_file: all = with and without a separate projector file | nofile. sums: subsets = layer buffer + every sum of <=k blocks/output (k=99: every subset); "+
+		"reach = every threshold reachable by round-robin placement with drop-outs (k unused). k_cross: the same thresholds computed without overhead and/or minimum, "+
+		"up to k_cross layers (0 = admission threshold only, -1 = none). eps: offsets added to each threshold. num_gpu: all = {-1,0,1,B,B+1,999} (thorough: also 2,B-1) | six = the first list | core = {-1,1,B,999}. "+
+		"min_pats: zero | big (2^30+7) | small (5) | alt (big,0,big,...). overheads: null = all listed in bounds.overheads. vector: product = full cartesian product of the per-GPU value sets | "+
+		"pattern = for every ordered pair (a,b) of values: a..a b..b split after 1, n/2, n-1 GPUs and a,b,a,b,...; cpu library always uses k=1 without cross thresholds.")
 	r.Extra("groups_total", len(groups))
 	r.Extra("constants", map[string]any{"unlimited": c16Huge, "minimum_big": c16MinBig, "minimum_small": c16MinSml,
 		"overhead_small": c16OvSml, "overhead_mid": c16OvMid, "overhead_big": c16OvBig, "block_unit_bytes": c16Unit})
